@@ -89,7 +89,7 @@ type stats struct {
 
 // CheckState evaluates every state oracle on world w against model m. illegal = the calls that
 // must be refused in this state.
-func CheckState(w *World, m *Model, illegal []Sym, st *stats, vac map[string]int64) (fs []Finding) {
+func CheckState(w *World, m *Model, illegal []Sym, st *stats, vac map[string]int64, rebuild func() *World) (fs []Finding) {
 	bad := func(a, f string, args ...interface{}) { fs = append(fs, Finding{a, fmt.Sprintf(f, args...)}) }
 	handles := map[string]*accum.AccumulatorObject{}
 	fh, err := accum.GetAccumulator(w.store, accName)
@@ -205,6 +205,8 @@ func CheckState(w *World, m *Model, illegal []Sym, st *stats, vac map[string]int
 		vac["states_with_rounded_claimable"]++
 	}
 	// illegal calls: must return an error and leave the store (and a long-lived handle) untouched.
+	// The store is compared once after the whole batch; only if it differs is the batch repeated call
+	// by call on rebuilt states to name the culprit.
 	img := w.Image()
 	hf := w.HandleFields()
 	for _, s := range illegal {
@@ -215,13 +217,26 @@ func CheckState(w *World, m *Model, illegal []Sym, st *stats, vac map[string]int
 		} else if o.Err == nil {
 			bad("illegal_call_refused", "%s (%s) returned no error", s, s.Illegal)
 		}
-		if !bytes.Equal(w.Image(), img) {
-			bad("illegal_call_no_effect", "%s (%s) changed the store", s, s.Illegal)
-			break
+	}
+	if !bytes.Equal(w.Image(), img) || w.HandleFields() != hf {
+		named := false
+		for _, s := range illegal {
+			w2 := rebuild()
+			i2, h2 := w2.Image(), w2.HandleFields()
+			Exec(w2, m, s)
+			if !bytes.Equal(w2.Image(), i2) {
+				bad("illegal_call_no_effect", "%s (%s) changed the store", s, s.Illegal)
+				named = true
+				break
+			}
+			if w2.HandleFields() != h2 {
+				bad("illegal_call_no_effect", "%s (%s) changed the long-lived handle: %s -> %s", s, s.Illegal, h2, w2.HandleFields())
+				named = true
+				break
+			}
 		}
-		if w.HandleFields() != hf {
-			bad("illegal_call_no_effect", "%s (%s) changed the long-lived handle: %s -> %s", s, s.Illegal, hf, w.HandleFields())
-			break
+		if !named {
+			bad("illegal_call_no_effect", "a batch of refused calls changed the store or the handle (no single call reproduces it)")
 		}
 	}
 	return
